@@ -161,6 +161,7 @@ func (g *Gen) GenShape(cfg ShapeCfg) {
 	if rng.Chance(cfg.CacheChance[0], cfg.CacheChance[1]) {
 		sc.Options.Caching = true
 		sc.Options.Capacity = cfg.Caps[rng.Intn(len(cfg.Caps))]
+		sc.Options.CacheOpt = rng.Pick([]string{"", "", "enable-max", "max-enable"})
 	}
 	sc.Options.StrictSlash = rng.Chance(1, 6)
 	if cfg.FallbackOpts {
